@@ -77,11 +77,14 @@ func (ev *Evidence) addJob(j sym.Job, r sym.JobResult) {
 	c.Jobs++
 	c.States += r.Stats.Paths - r.Stats.Infeasible
 	c.PathsInfeasible += r.Stats.Infeasible
-	c.Transitions += r.Solver.Queries
-	c.Queries["sat"] += r.Solver.Sat
-	c.Queries["unsat"] += r.Solver.Unsat
-	c.Queries["unknown"] += r.Solver.Unknown
-	c.Queries["error"] += r.Solver.Errors
+	c.Transitions += r.Solver.Queries + r.IntSolver.Queries
+	c.Queries["sat"] += r.Solver.Sat + r.IntSolver.Sat
+	c.Queries["unsat"] += r.Solver.Unsat + r.IntSolver.Unsat
+	c.Queries["unknown"] += r.Solver.Unknown + r.IntSolver.Unknown
+	c.Queries["error"] += r.Solver.Errors + r.IntSolver.Errors
+	c.Queries["bitvector_encoding"] += r.Solver.Queries
+	c.Queries["integer_encoding_overflow_free"] += r.IntSolver.Queries
+	c.SolverS += r.IntSolver.Seconds
 	c.Queries["answered_from_cache"] += r.Stats.CacheHits
 	c.SolverS += r.Solver.Seconds
 	c.Merges += r.Stats.Merges
